@@ -171,6 +171,16 @@ def run_irregular(ck, res, n_cases, goals, n_interval, torch, r, dist):
             for j in range(k): per.append((cx - a, cy + b - 2 * b * j / k))
             locs = per
             M = len(locs)
+        if ci % 5 == 3:
+            # ... plus a close neighbour of one of them (distinct points 1e-6 .. 1e-3 apart are distinct control points:
+            # both must be kept and reproduced; only true duplicates may be merged)
+            j = r.randrange(len(locs))
+            dlt = r.choice([1e-6, 1e-5, 1e-4, 1e-3])
+            dx, dy_ = locs[j][0] - cx, locs[j][1] - cy
+            nrm = math.hypot(dx, dy_)
+            # displaced along the tangent (counter-clockwise), so it is angularly adjacent to its neighbour
+            locs = locs[:j + 1] + [(locs[j][0] - dlt * dy_ / nrm, locs[j][1] + dlt * dx / nrm)] + locs[j + 1:]
+            M = len(locs)
         vals = [dy(r, -3, 3) for _ in range(M)]
         cps = [pde.DirichletControlPoint(loc=l, val=v) for l, v in zip(locs, vals)]
         captured.clear()
